@@ -7,8 +7,43 @@ import harness as H
 from harness import qlit
 from py2coq import coq_num
 
+def k3_sliver_points(rng, R, xd, n=2, on_lod=False):
+    """points in the shadow of the obstacle that hug it just behind the tangent circle: farther from the detonator than the tangent length
+    sqrt(d^2 - R^2) but nearer than the obstacle centre (d) - where 'nearer than the centre' is NOT enough to be in line of sight.
+    With on_lod the points lie on the sphere |p - x_d| = d (pairs straddling it are built by the caller)."""
+    import math
+    d = math.sqrt(sum(v * v for v in xd))
+    u = [v / d for v in xd]
+    # a unit vector perpendicular to u
+    if len(xd) == 2:
+        w0 = [-u[1], u[0]]
+    out = []
+    th_t, th_c = math.acos(R / d), math.acos(R / (2 * d))
+    for _ in range(n):
+        if len(xd) == 2:
+            sg = rng.choice([-1, 1])
+            w = [c * sg for c in w0]
+        else:
+            while True:
+                q = [rng.uniform(-1, 1) for _ in range(3)]
+                dot = sum(a * b for a, b in zip(q, u))
+                q = [a - dot * b for a, b in zip(q, u)]
+                nq = math.sqrt(sum(a * a for a in q))
+                if nq > 0.2:
+                    w = [a / nq for a in q]; break
+        rho = R * (1 + rng.uniform(0.002, 0.03))
+        if on_lod:
+            cphi = rho / (2 * d)                       # |p - x_d| = d  <=>  rho^2 = 2 d rho cos(phi)
+            phi = math.acos(cphi)
+        else:
+            phi = th_t + (th_c - th_t) * rng.uniform(0.25, 0.9)
+        out.append([round(rho * (math.cos(phi) * a + math.sin(phi) * b), 6) for a, b in zip(u, w)])
+    return out
+
+
 REAL = r'''
 import importlib
+
 def main(payload):
     out = []
     for c in payload:
@@ -71,6 +106,7 @@ def sample(rng):
         # one point straight behind the obstacle (deep shadow)
         nd = math.sqrt(sum(v * v for v in xd3))
         p3.append([round(-v / nd * R3 * rng.uniform(1.2, 3), 4) for v in xd3])
+        p3 += k3_sliver_points(rng, R3, xd3, 2)
         fn = 'k3_bt2' if geo == 2 else 'k3_bt3'
         cases.append(dict(module=K + 'kenamond3', cls='Kenamond3', params={'geometry': geo, 'R': R3, 'D': D3, 'x_d': xd3, 't_d': td3}, pts=p3,
                           coq=lambda p, a=(R3, D3) + tuple(xd3) + (td3,), fn=fn: '%s %s %s' % (fn, ' '.join(qlit(v) for v in a), ' '.join(qlit(v) for v in p))))
@@ -228,6 +264,10 @@ def oracle(rng, tier, reasons):
             if math.hypot(x, y) > 1.05 * R_:
                 pts.append([round(x, 4), round(y, 4)])
         pts2 = [[x + rng.uniform(-1e-3, 1e-3) for x in p] for p in pts]
+        for q in k3_sliver_points(rng, R_, xd, 3, on_lod=True):
+            # a pair on either side of the sphere |p - x_d| = |x_d| (moved along the direction away from the detonator; both stay outside the obstacle)
+            dirv = [a - b for a, b in zip(q, xd)]; nd_ = math.sqrt(sum(a * a for a in dirv))
+            pts.append([a - 2e-4 * b / nd_ for a, b in zip(q, dirv)]); pts2.append([a + 2e-4 * b / nd_ for a, b in zip(q, dirv)])
         P = {'geometry': 2, 'R': R_, 'D': D, 'x_d': xd, 't_d': 0.3}
         payload.append({'module': K + 'kenamond3', 'class': 'Kenamond3', 'params': P, 'pts': pts, 'pts2': pts2, 'Dmin': D})
         meta.append(({'cls': 'Kenamond3', 'module': K + 'kenamond3', 'params': P, 'pts': pts}, 0.3))
@@ -242,6 +282,9 @@ def oracle(rng, tier, reasons):
             if math.sqrt(sum(v * v for v in q)) > 1.05 * R_:
                 pts.append([round(v, 4) for v in q])
         pts2 = [[x + rng.uniform(-1e-3, 1e-3) for x in p] for p in pts]
+        for q in k3_sliver_points(rng, R_, xd3, 3, on_lod=True):
+            dirv = [a - b for a, b in zip(q, xd3)]; nd_ = math.sqrt(sum(a * a for a in dirv))
+            pts.append([a - 2e-4 * b / nd_ for a, b in zip(q, dirv)]); pts2.append([a + 2e-4 * b / nd_ for a, b in zip(q, dirv)])
         P = {'geometry': 3, 'R': R_, 'D': D, 'x_d': xd3, 't_d': 0.3}
         payload.append({'module': K + 'kenamond3', 'class': 'Kenamond3', 'params': P, 'pts': pts, 'pts2': pts2, 'Dmin': D})
         meta.append(({'cls': 'Kenamond3', 'module': K + 'kenamond3', 'params': P, 'pts': pts}, 0.3))
